@@ -544,6 +544,88 @@ def r5_delete(ctx, prog):
             r.ok(f['qname'], site, '%d paths' % len(o.outcomes), file=f['file'], line=f['line'])
 
 
+def r7_placement_flags(ctx, prog, rule_id='C05.R7'):
+    """The helpers that build an object from a template receive its placement (CKA_TOKEN) and privacy (CKA_PRIVATE) as parameters.  In the helper, each such parameter sits in the
+    attribute array that is filled from one template parameter; at the call site the argument must be the flag that extractObjectInformation() read from that very template - the
+    token flag of the public template for the public key, not the private key's (a swapped pair persists the session key and loses the token key at C_Finalize)."""
+    r = ctx.rule(rule_id, 'a key-building helper gets, for each template, the CKA_TOKEN / CKA_PRIVATE flags extracted from that template', floor=20, engine='E5 argument provenance against callee summaries')
+    ex = prog.fns('extractObjectInformation')
+    if not ex:
+        r.undecided('SoftHSM', 'extractObjectInformation', 'the template reader was not found', file='', line=0)
+        return
+    ex = ex[0]
+    exn = [pp['var']['name'] if pp.get('var') else None for pp in ex['params']]
+    attr_of = {macro(prog, 'CKA_TOKEN'): 'CKA_TOKEN', macro(prog, 'CKA_PRIVATE'): 'CKA_PRIVATE'}
+    # which attribute each by-reference output of the template reader holds: the case label under which it is assigned
+    role = {}
+    for n in walk(ex['body']):
+        if n.get('k') == 'Switch':
+            for labels, stmts in tables.switch_cases(n):
+                for st in stmts:
+                    for x in walk(st):
+                        if x.get('k') == 'Assign' and x['a'].get('k') == 'Var' and x['a']['name'] in exn:
+                            for l in labels:
+                                if l in ('CKA_TOKEN', 'CKA_PRIVATE'):
+                                    role[exn.index(x['a']['name'])] = l
+    # callee summaries: parameter index -> (template parameter index, attribute)
+    summ = {}
+    for g in prog.functions.values():
+        if g.get('class') != 'SoftHSM' or g['body'] is None:
+            continue
+        pn = [pp['var']['name'] if pp.get('var') else None for pp in g['params']]
+        arr_flags, arr_tmpl = {}, {}
+        for n in walk(g['body']):
+            if n.get('k') == 'Decl':
+                for d in n['decls']:
+                    if d.get('init') is not None and d['init'].get('k') == 'Init':
+                        for row in d['init'].get('args', []):
+                            if row.get('k') == 'Init' and len(row.get('args', [])) >= 2:
+                                a = tables.const_eval(row['args'][0])
+                                v = row['args'][1]
+                                if a in attr_of and v.get('k') == 'Un' and v.get('op') == '&' and v['e'].get('k') == 'Var' and v['e']['name'] in pn:
+                                    arr_flags.setdefault(d['var']['name'], []).append((pn.index(v['e']['name']), attr_of[a]))
+            elif n.get('k') == 'Assign' and n['a'].get('k') == 'Index' and n['a']['base'].get('k') == 'Var' and n['b'].get('k') == 'Index' and n['b']['base'].get('k') == 'Var' and n['b']['base']['name'] in pn:
+                arr_tmpl[n['a']['base']['name']] = pn.index(n['b']['base']['name'])
+        for arr, flags in arr_flags.items():
+            if arr in arr_tmpl:
+                for pi, a in flags:
+                    summ.setdefault(g['qname'], {})[pi] = (arr_tmpl[arr], a)
+    for f in sorted(prog.functions.values(), key=lambda f: (f['file'], f['line'])):
+        if f['body'] is None:
+            continue
+        cs = [c for c in calls(f['body']) if c.get('callee') in summ]
+        if not cs:
+            continue
+        # locals filled by the template reader in this function: name -> (template expression, attribute)
+        src = {}
+        for c in calls(f['body']):
+            if c.get('callee') == ex['qname'] and c.get('args'):
+                t = canon(c['args'][0])
+                for i, a in enumerate(c['args']):
+                    if i in role and a.get('k') == 'Var':
+                        src[a['name']] = (t, role[i])
+        if not src:
+            continue
+        ctx.analysed(f)
+        for c in cs:
+            for pi, (ti, attr) in sorted(summ[c['callee']].items()):
+                if pi >= len(c.get('args', [])) or ti >= len(c['args']):
+                    continue
+                a = c['args'][pi]
+                while a.get('k') in ('Cast', 'Paren') and a.get('e') is not None:
+                    a = a['e']
+                site = '%s: %s of the object built from %s@%d' % (short(c['callee']), attr, canon(c['args'][ti]), c['l'])
+                if a.get('k') != 'Var' or a['name'] not in src:
+                    r.undecided(f['qname'], site, 'the argument %s is not a flag read by %s in this function' % (canon(a), short(ex['qname'])), file=f['file'], line=c['l'])
+                    continue
+                t, got = src[a['name']]
+                if t != canon(c['args'][ti]) or got != attr:
+                    r.violation(f['qname'], site, 'the helper puts this argument into the %s entry of the object it builds from %s, but %s is the %s read from %s: the object is created with the other template\'s flag (e.g. the session key is persisted and the token key is lost at C_Finalize)' % (
+                        attr, canon(c['args'][ti]), a['name'], got, t), file=f['file'], line=c['l'])
+                else:
+                    r.ok(f['qname'], site, a['name'], file=f['file'], line=c['l'])
+
+
 def run(ctx):
     prog = ctx.prog('ossl-file', subdirs=('src/lib', 'src/bin'))
     r1_tables(ctx, prog)
@@ -558,9 +640,12 @@ def run(ctx):
     r1d_map_accounting(ctx, prog)
     from rules import c11
     c11.r6_store_key(ctx, prog, rule_id='C05.R6')
+    r7_placement_flags(ctx, prog)
 
 
 MUTANTS = [
+    dict(name='generateec-privacy-flags-swapped', rule='C05.R7', file='src/lib/SoftHSM.cpp', after='return this->generateEC(',
+         old='ispublicKeyToken, ispublicKeyPrivate, isprivateKeyToken, isprivateKeyPrivate);', new='ispublicKeyToken, isprivateKeyPrivate, isprivateKeyToken, ispublicKeyPrivate);'),
     dict(name='attribute-map-exact-fit-rejected', rule='C05.R1d', file='src/lib/object_store/File.cpp', after='bool File::readAttributeMap(',
          old='\t\t\t\tif (8 + val.size() > len)', new='\t\t\t\tif (8 + val.size() >= len)'),
     dict(name='directory-remove-only-enoent-fails', rule='C05.R3c', file='src/lib/object_store/Directory.cpp', after='bool Directory::remove(std::string name)',
